@@ -4,5 +4,5 @@ MCNames == {"a", "b", "c"}
 MCTypes == {"t", "u"}
 MCLabelSets == {<<>>, <<"x">>, <<"x", "y">>}
 MCVals == {[vk |-> "val", vn |-> 0], [vk |-> "val", vn |-> 1], [vk |-> "trav", vn |-> 0], [vk |-> "raw", vn |-> 0]}
-MCInits == {"empty", "parsed"}
+MCInits == {"empty", "parsed", "oneline", "emptyblk"}
 =============================================================================
